@@ -1,9 +1,20 @@
 #!/usr/bin/env python3
 """usage: seeded_matrix.py [<mutant-id> ...] [--checks C01,C02] : applies each seeded patch to /repo, runs the quick checks
 (default: the property the mutant breaks), reverts, and records the result in /verif/seeded/MATRIX.json."""
-import json, os, subprocess, sys
-V = os.path.dirname(os.path.dirname(os.path.abspath(__file__)))
-S = os.path.join(V, 'seeded')
+import json, os, shutil, subprocess, sys
+V0 = os.path.dirname(os.path.dirname(os.path.abspath(__file__)))
+S = os.path.join(V0, 'seeded')
+V, REPO, ENV = V0, '/repo', dict(os.environ)
+if '--isolated' in sys.argv:
+    # work on scratch copies of /repo and /verif (outside both), so that nothing else is disturbed; removed at the end
+    base = '/var/tmp/verif-matrix-%d' % os.getpid()
+    os.makedirs(base)
+    subprocess.run(['rsync', '-a', '/repo/', base + '/repo/'], check=True)
+    subprocess.run(['rsync', '-a', '--exclude', '.git', '--exclude', '.build', '--exclude', 'replays', V0 + '/', base + '/verif/'], check=True)
+    V, REPO = base + '/verif', base + '/repo'
+    ENV['VERIF_REPO'] = REPO
+    import atexit
+    atexit.register(lambda: shutil.rmtree(base, ignore_errors=True))
 args = [a for a in sys.argv[1:] if not a.startswith('--')]
 checks = None
 for a in sys.argv[1:]:
@@ -16,17 +27,17 @@ for m in ids:
     patch = os.path.join(S, m, 'patch.diff')
     meta = json.load(open(os.path.join(S, m, 'meta.json')))
     cs = checks or [meta['breaks_property']]
-    if subprocess.run(['git', '-C', '/repo', 'apply', '--check', patch]).returncode != 0:
+    if subprocess.run(['git', '-C', REPO, 'apply', '--check', patch]).returncode != 0:
         print(m, 'PATCH DOES NOT APPLY'); matrix.setdefault(m, {})['_apply'] = 'conflict'; continue
-    subprocess.run(['git', '-C', '/repo', 'apply', patch], check=True)
+    subprocess.run(['git', '-C', REPO, 'apply', patch], check=True)
     try:
         for c in cs:
             if not os.path.exists(os.path.join(V, 'checks', c.lower() + '.py')):
                 matrix.setdefault(m, {})[c] = 'no-check-yet'; continue
-            p = subprocess.run([os.path.join(V, 'check'), c], capture_output=True, text=True)
+            p = subprocess.run([os.path.join(V, 'check'), c], capture_output=True, text=True, env=ENV)
             viol = [l for l in p.stdout.splitlines() if l.startswith('VIOLATION')]
             matrix.setdefault(m, {})[c] = dict(exit=p.returncode, violations=len(viol), first=(viol[0][:300] if viol else None))
             print(m, c, 'exit', p.returncode, 'violations', len(viol), flush=True)
     finally:
-        subprocess.run(['git', '-C', '/repo', 'checkout', '--', '.'], check=True)
+        subprocess.run(['git', '-C', REPO, 'checkout', '--', '.'], check=True)
     json.dump(matrix, open(mp, 'w'), indent=1, sort_keys=True)
